@@ -6,7 +6,7 @@
 //! For every datagram of A that carried injected frames and was processed by the victim, one stateless request
 //! line for the Lean frame-rules model (`Conn/FrameRules.lean`) is recorded together with the observed outcome:
 //!
-//!   frules <victim side c|s> <observed: ok | error N> <frame>...
+//!   frules <victim side c|s> <observed: ok | error:N> <frame>...   (recorded only with VERIF_FRULES=1 until the Lean front end exists)
 //!   <frame> = <exact 0|1|g>/<28 comma separated facts observed before the datagram>/<frame hex>
 //!
 //! `exact = 1`: the facts describe the state the frame is processed in; `0`: an earlier frame of the same
@@ -25,7 +25,7 @@ use crate::sim::*;
 use crate::workload::*;
 use crate::{hex, Rng};
 
-pub const FRAMES_RULE: &str = "one execution = one endpoint pair; a bystander connection B with a workload; a victim connection A whose client side (server side in half of the seeds) is a hostile but genuinely authenticated peer: at random steps, during and after the handshake, it injects 1..8 frames into a random packet-number space that has keys (Initial / Handshake / Data) through the guarded hook, inside correctly protected packets that carry nothing else but a PING. Frames: (a) well-formed frames of every kind from the C10 generator (boundary-biased fields); (b) targeted mutations: unknown frame types, varints 2^62-1, stream ids of the wrong initiator / direction / beyond the limit / unopened, offsets around the stream and connection flow-control limits, final-size conflicts (FIN then data beyond, RESET_STREAM below the high-water mark), NEW_CONNECTION_ID with retire_prior_to > seq / far-ahead seq / duplicate seq with another CID / mass retirement, RETIRE_CONNECTION_ID of unissued numbers, ACKs of unsent packets / whole-range ACKs (skipped packet number) / huge ECN counts, MAX_STREAMS and STREAMS_BLOCKED above 2^60, CRYPTO at huge offsets / around the crypto buffer limit / garbage at the read offset, unsolicited PATH_RESPONSE, PATH_CHALLENGE floods, HANDSHAKE_DONE, NEW_TOKEN (empty and not), DATAGRAM (disabled, oversized, empty), ACK_FREQUENCY (stale, below 1 ms, huge) and IMMEDIATE_ACK whether negotiated or not, frames forbidden in the packet space, zero-length STREAM frames at random offsets, hundreds of tiny overlapping STREAM / CRYPTO fragments per packet, length fields pointing past the packet, plain truncations. Local configurations as random_transport plus ack-frequency on/off, datagrams on/off/tiny, small crypto buffer. Oracles: no panic; B never lost and completes (hostile-peer-bystander-*); per processed injected datagram the observed outcome (no error / transport error code) equals what the Lean frame-rules model admits for the injected sequence under the facts observed before the datagram (T2 line `frules`; hostile-peer-wrong-error-class / hostile-peer-legal-frames-killed-connection); the CONNECTION_CLOSE the peer receives carries the code the victim reported; queue sizes after every injected datagram within bounds derived from the configuration (hostile-peer-unbounded-state); bounded steps per injected frame (hostile-peer-steps-exceeded). non-trivial = both handshakes completed and >= 5 injected datagrams were processed by the victim";
+pub const FRAMES_RULE: &str = "one execution = one endpoint pair; a bystander connection B with a workload; a victim connection A (with its own ordinary workload on both sides) whose client side (server side for odd seeds) is a hostile but genuinely authenticated peer: a real Connection that, through the guarded hook, emits attacker-chosen frame bytes in correctly protected packets (injected bytes + PING, nothing else) of a packet-number space that has keys (Initial / Handshake / Data), during and after the handshake, interleaved with the honest traffic. Modes (per execution): legal-only 45%, legal-then-one-unrestricted-datagram-at-a-random-point 40%, unrestricted-from-the-start 15%; 20..120 datagrams of 1..8 families each. LEGAL datagrams consist only of frames that are legal in the victim's current state (facts read through the probes): PING/PADDING floods (up to 200), ACKs of packets the victim really sent (random ranges and gaps, never the skipped packet number, optional ECN counts), CRYPTO re-sending any sub-range the victim already consumed (up to 150 tiny frames) and, towards a server, up to 400 disjoint fragments above the read offset within crypto_buffer_size, STREAM data on attack streams (streams the hostile application really opened, so its own connection accepts the victim's answers; canonical content, so the victim's workload content oracle applies to it): in order, ahead with gaps, overlapping old data, zero-length at any legal offset, 40..170 tiny overlapping fragments per packet, always inside the stream window the victim advertised, inside the connection window minus bytes still in flight (new bytes only when they cannot make the honest sender overrun the window), final size consistent once a FIN was injected; RESET_STREAM with the consistent final size, STOP_SENDING / MAX_STREAM_DATA / STREAM_DATA_BLOCKED on those streams, MAX_DATA / MAX_STREAMS not above what the hostile connection itself grants, DATA_BLOCKED, STREAMS_BLOCKED <= 2^60, NEW_CONNECTION_ID with a sequence number inside the window that retires nothing (free slot or repetition of a known CID), RETIRE_CONNECTION_ID of numbers the hostile connection already retired, PATH_CHALLENGE / PATH_RESPONSE (up to 40), DATAGRAMs within the receive buffer, ACK_FREQUENCY with increasing sequence numbers and 1..50 ms, IMMEDIATE_ACK, HANDSHAKE_DONE and non-empty NEW_TOKEN towards a client. UNRESTRICTED datagrams: (a) well-formed frames of every kind from the C10 generator (boundary-biased fields); (b) targeted mutations: unknown frame types, varints 2^62-1, stream ids of the wrong initiator / direction / beyond the limit / unopened, offsets around the stream and connection flow-control limits, final-size conflicts, NEW_CONNECTION_ID with retire_prior_to > seq / far-ahead seq / duplicate seq with another CID / mass retirement, RETIRE_CONNECTION_ID of unissued numbers, ACKs of unsent packets / whole-range ACKs / huge ECN counts, MAX_STREAMS and STREAMS_BLOCKED above 2^60, CRYPTO at huge offsets / around the buffer limit / garbage at the read offset, HANDSHAKE_DONE, NEW_TOKEN (empty and not), DATAGRAM (disabled, oversized, empty), ACK_FREQUENCY (stale, below 1 ms, huge), frames forbidden in the packet space, length fields pointing past the packet, plain truncations. Local configurations as random_transport plus ack-frequency on/off, datagrams off/0/50/300/default, crypto buffer 4096/8192/default. Oracles: no panic; B never lost and completes with intact content (hostile-peer-bystander-*); while only legal datagrams have been injected the victim must not raise a transport error, neither on an injected datagram nor on the honest traffic that follows (hostile-peer-legal-frames-killed-connection) and the content oracles of A's own workload hold (stream-data-altered / -gap-or-reorder / -duplicated); after every processed injected datagram the queue sizes and the number of streams counted as opened stay within bounds derived from the configuration (hostile-peer-unbounded-state); the transport error code the victim reports is an RFC 9000 code and equals the code in the CONNECTION_CLOSE its peer receives (hostile-peer-wrong-error-class); bounded steps (hostile-peer-steps-exceeded). non-trivial = both handshakes completed and the victim processed >= 20 injected frames";
 
 pub const V62: u64 = 1 << 62;
 
@@ -488,6 +488,288 @@ struct SentInj {
     space: usize,
     pn: u64,
     frames: Vec<InjFrame>,
+    legal: bool,
+    new_bytes: u64,
+}
+
+/// A stream the hostile application really opened (so that its own `Connection` accepts the victim's answers) and
+/// that is fed only by injected frames carrying the harness' canonical content
+#[derive(Clone, Debug)]
+pub struct AttackStream {
+    pub id: u64,
+    pub uni: bool,
+    /// largest end offset injected so far
+    pub end: u64,
+    pub fin: Option<u64>,
+    pub dead: bool,
+}
+
+/// What the legal generator knows
+pub struct LegalCtx<'a> {
+    pub victim_is_server: bool,
+    pub space: usize,
+    pub vsnap: &'a Snapshot,
+    pub vprobe: &'a FrameProbe,
+    pub hsnap: &'a Snapshot,
+    pub hprobe: &'a FrameProbe,
+    pub vconn: &'a quinn_proto::Connection,
+    /// new stream bytes may be injected (they cannot make the honest sender overrun the connection window)
+    pub new_bytes_ok: bool,
+    /// connection-level credit not yet claimed by injections in flight
+    pub conn_room: u64,
+}
+
+fn stream_frame(ex: &mut Exec, id: u64, off: u64, len: u64, fin: bool, label: &'static str) -> Option<InjFrame> {
+    let data = content(id, off, len as usize);
+    enc(ex, &format!("stream {id} {off} {} {}", fin as u8, hex(&data)), label)
+}
+
+/// One family of frames that are LEGAL in the victim's current state (facts from the probes). Returns the number of
+/// new stream bytes claimed.
+#[allow(clippy::too_many_arguments)]
+fn gen_legal_family(rng: &mut Rng, ex: &mut Exec, c: &LegalCtx, streams: &mut [AttackStream], misc: &mut [u64; 2], fam: u64, out: &mut Vec<InjFrame>, new_bytes: &mut u64) {
+    let push = |out: &mut Vec<InjFrame>, f: Option<InjFrame>| {
+        if let Some(f) = f {
+            out.push(f);
+        }
+    };
+    let sp = c.space;
+    let early = sp != 2;
+    // families that exist in every space
+    match fam {
+        0 => {
+            let k = if rng.chance(1, 4) { rng.range(20, 200) } else { rng.range(1, 6) };
+            for _ in 0..k {
+                out.push(raw(vec![if rng.chance(1, 2) { 0x01 } else { 0x00 }], "legal-ping-padding"));
+            }
+            return;
+        }
+        1 => {
+            // ACK of packets the victim really sent, never covering the skipped packet number
+            let np = c.vprobe.next_pn[sp];
+            if np == 0 {
+                return;
+            }
+            let lo = match c.vprobe.skipped_pn {
+                Some(s) if sp == 2 && s + 1 < np => s + 1,
+                Some(s) if sp == 2 && s < np => return,
+                _ => 0,
+            };
+            let largest = rng.range(lo, np - 1);
+            let first = rng.below(largest - lo + 1);
+            let mut blocks = Vec::new();
+            let mut smallest = largest - first;
+            while smallest >= lo + 2 && blocks.len() < 40 && rng.chance(2, 3) {
+                let room = smallest - lo - 2;
+                let gap = rng.below(room.min(5) + 1);
+                let len = rng.below((room - gap).min(5) + 1);
+                blocks.push(format!("{gap}:{len}"));
+                smallest = smallest - gap - 2 - len;
+            }
+            let b = if blocks.is_empty() { "-".to_string() } else { blocks.join(",") };
+            let ecn = if rng.chance(1, 4) { format!("{}:{}:{}", rng.below(5), rng.below(5), rng.below(5)) } else { "-".into() };
+            push(out, enc(ex, &format!("ack {largest} {} {first} {b} {ecn}", rng.below(10_000)), "legal-ack"));
+            return;
+        }
+        2 => {
+            // CRYPTO: data the victim has already consumed (any sub-range, many tiny ones) ...
+            let rd = c.vprobe.crypto_read[sp];
+            let k = if rng.chance(1, 3) { rng.range(30, 150) } else { rng.range(1, 4) };
+            if rd > 0 {
+                for _ in 0..k {
+                    let off = rng.below(rd);
+                    let len = rng.below((rd - off).min(3) + 1);
+                    push(out, enc(ex, &format!("crypto {off} {}", payload(rng, len as usize)), "legal-crypto-dup"));
+                }
+            }
+            // ... and, towards a server after the handshake (a client never sends 1-RTT CRYPTO, so the gap at the read
+            // offset is never closed), fragments above the read offset within the buffer limit
+            if sp == 2 && c.victim_is_server && c.vsnap.state == "established" && rng.chance(1, 2) {
+                let cb = c.vprobe.crypto_buffer_size as u64;
+                for _ in 0..k {
+                    let off = rd + 1 + rng.below(cb.saturating_sub(4).max(1));
+                    let len = 1 + rng.below(2);
+                    // an endpoint need not keep an arbitrary number of disjoint fragments (quinn: more than 1024 chunks after
+                    // defragmentation is INTERNAL_ERROR "too many gaps"): stay well below
+                    if misc[1] >= 400 {
+                        break;
+                    }
+                    misc[1] += 1;
+                    if off + len <= rd + cb {
+                        push(out, enc(ex, &format!("crypto {off} {}", payload(rng, len as usize)), "legal-crypto-gap"));
+                    }
+                }
+            }
+            return;
+        }
+        _ => {}
+    }
+    if early {
+        return;
+    }
+    let vs = c.victim_is_server;
+    match fam {
+        3 | 4 | 5 => {
+            // STREAM data on an attack stream, canonical content, inside the windows the victim advertised
+            let live: Vec<usize> = (0..streams.len()).filter(|&i| !streams[i].dead).collect();
+            if live.is_empty() {
+                return;
+            }
+            let i = live[rng.below(live.len() as u64) as usize];
+            let id = streams[i].id;
+            let p = c.vconn.verif_stream_probe(id);
+            let win = if p.recv == 2 { p.recv_sent_max } else { p.stream_receive_window };
+            let many = fam == 5;
+            let k = if many { rng.range(40, 170) } else { rng.range(1, 4) };
+            for _ in 0..k {
+                let end0 = streams[i].end;
+                // nothing beyond the final size once a FIN was injected, nothing beyond the advertised stream window
+                let cap = streams[i].fin.unwrap_or(win).min(win);
+                let room = if c.new_bytes_ok { c.conn_room.saturating_sub(*new_bytes) } else { 0 };
+                // candidate range [off, off+len)
+                let maxlen = if many { 3 } else { *rng.pick(&[0u64, 1, 7, 60, 300]) };
+                let (off, len) = match rng.below(4) {
+                    0 => (end0, maxlen),                                              // in order
+                    1 => (end0 + rng.below(40), maxlen),                              // ahead, leaving a gap
+                    2 if end0 > 0 => { let o = rng.below(end0); (o, maxlen.min(end0 - o + 5)) } // overlapping old data
+                    _ => (rng.below(end0 + 20), rng.below(maxlen + 1)),
+                };
+                let mut end = (off + len).min(cap);
+                if end < off {
+                    continue;
+                }
+                let fresh = end.saturating_sub(end0);
+                if fresh > room {
+                    end = end0.max(off).min(end);
+                    if end < off || end.saturating_sub(end0) > room {
+                        continue;
+                    }
+                }
+                let len = end - off;
+                let fin = streams[i].fin == Some(end) || (streams[i].fin.is_none() && end >= end0 && !many && rng.chance(1, 25));
+                // a FIN fixes the final size: nothing was or will be sent beyond it
+                if fin && streams[i].fin.is_none() {
+                    if end < end0 {
+                        continue;
+                    }
+                    streams[i].fin = Some(end);
+                }
+                *new_bytes += end.saturating_sub(end0);
+                streams[i].end = end0.max(end);
+                push(out, stream_frame(ex, id, off, len, fin, if many { "legal-stream-fragments" } else if len == 0 { "legal-stream-empty" } else { "legal-stream" }));
+            }
+        }
+        6 => {
+            // control frames about an attack stream
+            let live: Vec<usize> = (0..streams.len()).filter(|&i| !streams[i].dead).collect();
+            if live.is_empty() {
+                return;
+            }
+            let i = live[rng.below(live.len() as u64) as usize];
+            let id = streams[i].id;
+            match rng.below(6) {
+                0 if rng.chance(1, 3) => {
+                    let fo = streams[i].fin.unwrap_or(streams[i].end);
+                    streams[i].dead = true;
+                    push(out, enc(ex, &format!("reset_stream {id} {} {fo}", rng.below(50)), "legal-reset-stream"));
+                }
+                1 | 2 if !streams[i].uni => push(out, enc(ex, &format!("max_stream_data {id} {}", rng.below(1 << 20)), "legal-max-stream-data")),
+                3 if !streams[i].uni => push(out, enc(ex, &format!("stop_sending {id} {}", rng.below(50)), "legal-stop-sending")),
+                _ => push(out, enc(ex, &format!("stream_data_blocked {id} {}", rng.below(1 << 20)), "legal-stream-data-blocked")),
+            }
+        }
+        7 => {
+            // connection-level credit / blocked frames that do not promise more than the hostile connection itself grants
+            let hs = &c.hsnap.streams;
+            let t = match rng.below(5) {
+                0 => format!("max_data {}", rng.below(hs.local_max_data.min(V62 - 1) + 1)),
+                1 => format!("max_streams bi {}", rng.below(hs.max_remote[0] + 1)),
+                2 => format!("max_streams uni {}", rng.below(hs.max_remote[1] + 1)),
+                3 => format!("data_blocked {}", rng.below(1 << 30)),
+                _ => format!("streams_blocked {} {}", if rng.chance(1, 2) { "bi" } else { "uni" }, rng.below((1 << 60) + 1)),
+            };
+            push(out, enc(ex, &t, "legal-credit"));
+        }
+        8 => {
+            // NEW_CONNECTION_ID: a fresh sequence number inside the window, retiring nothing (a retired active CID would move
+            // the victim to a CID the hostile endpoint does not route); or a repetition of a known one
+            let (off, cur, ref ents) = c.vprobe.rem_cids;
+            if c.vprobe.rem_cid_active_empty || (vs && off == 0) {
+                return;
+            }
+            let n = ents.len() as u64;
+            let k = 1 + rng.below(n - 1);
+            let seq = off + k;
+            let slot = ((cur as u64 + k) % n) as usize;
+            let cid = match &ents[slot] {
+                Some((cid, _)) => cid.to_vec(),
+                None => rng.bytes(8),
+            };
+            push(out, enc(ex, &format!("new_cid {seq} {} {} {}", rng.below(off + 1), hex(&cid), hex(&rng.bytes(16))), "legal-new-cid"));
+        }
+        9 => {
+            // RETIRE_CONNECTION_ID of a sequence number the hostile connection has itself retired already
+            let hoff = c.hprobe.rem_cids.0;
+            if hoff > 0 && c.vprobe.local_cids.0 > 0 {
+                push(out, enc(ex, &format!("retire_cid {}", rng.below(hoff)), "legal-retire-cid"));
+            }
+        }
+        10 => {
+            let k = if rng.chance(1, 4) { rng.range(10, 40) } else { rng.range(1, 3) };
+            for _ in 0..k {
+                let t = if rng.chance(1, 2) { format!("path_response {}", rng.next()) } else { format!("path_challenge {}", rng.next()) };
+                push(out, enc(ex, &t, "legal-path"));
+            }
+        }
+        11 => {
+            if let Some(w) = c.vprobe.datagram_window {
+                let n = rng.below((w as u64).min(200) + 1) as usize;
+                push(out, enc(ex, &format!("datagram {}", payload(rng, n)), "legal-datagram"));
+            }
+        }
+        12 => {
+            if rng.chance(1, 2) {
+                misc[0] += 1 + rng.below(3);
+                push(out, enc(ex, &format!("ack_frequency {} {} {} {}", misc[0] + c.vprobe.ack_frequency_last.unwrap_or(0), rng.below(10), rng.range(1000, 50_000), rng.below(4)), "legal-ack-frequency"));
+            } else {
+                push(out, enc(ex, "immediate_ack", "legal-immediate-ack"));
+            }
+        }
+        _ => {
+            if !vs {
+                if rng.chance(1, 2) {
+                    push(out, enc(ex, "handshake_done", "legal-handshake-done"));
+                } else {
+                    push(out, enc(ex, &format!("new_token {}", payload_r(rng, 1, 40)), "legal-new-token"));
+                }
+            }
+        }
+    }
+}
+
+pub const LEGAL_FAMILIES: u64 = 14;
+
+/// 1..8 legal families, total size capped
+pub fn gen_legal(rng: &mut Rng, ex: &mut Exec, c: &LegalCtx, streams: &mut [AttackStream], misc: &mut [u64; 2]) -> (Vec<InjFrame>, u64) {
+    let mut out = Vec::new();
+    let mut new_bytes = 0;
+    let n = rng.range(1, 8);
+    for _ in 0..n {
+        let before = out.len();
+        let fam = rng.below(LEGAL_FAMILIES);
+        let (mut s2, mut nb2, mut af2) = (streams.to_vec(), new_bytes, *misc);
+        gen_legal_family(rng, ex, c, &mut s2, &mut af2, fam, &mut out, &mut nb2);
+        // keep a family only if it fits completely (stream bookkeeping must match what is really sent)
+        let total: usize = out.iter().map(|f| f.bytes.len()).sum();
+        if total > 850 {
+            out.truncate(before);
+        } else {
+            streams.clone_from_slice(&s2);
+            new_bytes = nb2;
+            *misc = af2;
+        }
+    }
+    (out, new_bytes)
 }
 
 #[derive(Default)]
@@ -495,22 +777,31 @@ struct Shared {
     victim: Option<(usize, usize)>,
     hostile: Option<(usize, usize)>,
     pending: [Vec<InjFrame>; 3],
+    pending_legal: [bool; 3],
+    pending_new: [u64; 3],
     sent: Vec<SentInj>,
     pre: Option<(Snapshot, FrameProbe, Vec<Vec<String>>)>,
     evaluated: u64,
+    evaluated_legal: u64,
     frames_evaluated: u64,
+    frames_evaluated_legal: u64,
     exact_frames: u64,
     errors_seen: BTreeMap<u64, u64>,
     labels: BTreeMap<&'static str, u64>,
     max_seen: BTreeMap<&'static str, u64>,
     /// victim transport error explained by an evaluated injected datagram
     attributed_error: bool,
+    /// an injection that is not purely legal has been handed to the hostile connection
+    illegal_injected: bool,
     lim: [u32; 2],
     /// the victim's stream table is corrupt (phantom streams): the application must not be run any more
     abort: bool,
     /// how the two sides of A ended: (kind, code) of the first error seen right after a datagram was handled
     victim_end: Option<(&'static str, u64)>,
     hostile_end: Option<(&'static str, u64)>,
+    /// the victim raised a transport error although nothing but legal datagrams had been injected: (code, frame type)
+    killed_legal: Option<(u64, Option<u64>)>,
+    dropped: u64,
 }
 
 impl Shared {
@@ -523,9 +814,14 @@ impl Shared {
             if node != hn || ch != hc {
                 continue;
             }
-            let frames = std::mem::take(&mut self.pending[space as usize]);
+            let sp = space as usize;
+            let frames = std::mem::take(&mut self.pending[sp]);
+            let (legal, new_bytes) = (self.pending_legal[sp], std::mem::take(&mut self.pending_new[sp]));
             if n > 0 && !frames.is_empty() {
-                self.sent.push(SentInj { space: space as usize, pn, frames });
+                self.sent.push(SentInj { space: sp, pn, frames, legal, new_bytes });
+            } else if !frames.is_empty() {
+                // did not fit into the packet: the frames were never sent
+                self.dropped += 1;
             }
         }
     }
@@ -591,8 +887,17 @@ pub fn frames(seed: u64, out: &mut Outcome) {
     let mut wb = ws.pop().unwrap();
     let bch = sim.connect(ccfg.clone());
     wb.ch[CLIENT] = Some(bch);
-    let n_attack = rng.range(5, 60);
+    // mode: 0 = every datagram from the unrestricted generator (the victim usually dies at once; keeps the handshake-time
+    // attacks); 1 = only legal datagrams; 2 = legal datagrams, then one unrestricted datagram at a random point
+    let mode = match rng.below(20) {
+        0..=2 => 0,
+        3..=11 => 1,
+        _ => 2,
+    };
+    let n_attack = if mode == 0 { rng.range(5, 60) } else { rng.range(20, 120) };
+    let kill_at = if mode == 2 { rng.below(n_attack) } else { u64::MAX };
     let every = rng.range(1, 4);
+    let hostile_sends_streams = !wa.sides[hostile].plans.is_empty();
     let shared = Rc::new(RefCell::new(Shared { lim: if victim == SERVER { lim_s } else { lim_c }, ..Default::default() }));
 
     // the victim-side observation around every datagram it handles
@@ -603,9 +908,16 @@ pub fn frames(seed: u64, out: &mut Outcome) {
         if post && (s.victim == Some((node, ch)) || s.hostile == Some((node, ch))) {
             // `Connection::poll` takes the error away: remember it as soon as it is there
             let e = sim.nodes[node].conns[&ch].conn.verif_frame_probe().error;
-            let slot = if s.victim == Some((node, ch)) { &mut s.victim_end } else { &mut s.hostile_end };
+            let is_v = s.victim == Some((node, ch));
+            let slot = if is_v { &mut s.victim_end } else { &mut s.hostile_end };
+            let first = slot.is_none() && e.is_some();
             if slot.is_none() {
                 *slot = e.map(|(k, c, _)| (k, c));
+            }
+            if is_v && first && !s.illegal_injected {
+                if let Some(("transport", code, ft)) = e {
+                    s.killed_legal = Some((code, ft));
+                }
             }
         }
         if s.victim != Some((node, ch)) {
@@ -624,11 +936,16 @@ pub fn frames(seed: u64, out: &mut Outcome) {
                 return;
             }
             let probe = conn.verif_frame_probe();
-            let fl: Vec<Vec<String>> = s.sent.iter().map(|i| i.frames.iter().map(|f| facts(i.space, f, &probe, conn)).collect()).collect();
+            let fl: Vec<Vec<String>> = if emit_frules { s.sent.iter().map(|i| i.frames.iter().map(|f| facts(i.space, f, &probe, conn)).collect()).collect() } else { Vec::new() };
             s.pre = Some((snap, probe, fl));
             return;
         }
-        let Some((before, pbefore, fl)) = s.pre.take() else { return };
+        let Some((before, pbefore, fl)) = s.pre.take() else {
+            if let Some((code, ft)) = s.killed_legal.take() {
+                sim.fail("hostile-peer-legal-frames-killed-connection", format!("victim node {node} closed with transport error {code:#x} (frame type {ft:?}) on a datagram of {len} bytes without injected frames, after only legal datagrams had been injected (the honest peer's own frames became illegal)"));
+            }
+            return;
+        };
         let conn = &sim.nodes[node].conns[&ch].conn;
         let after = conn.verif_snapshot();
         let pafter = conn.verif_frame_probe();
@@ -645,38 +962,44 @@ pub fn frames(seed: u64, out: &mut Outcome) {
         idx.sort_by_key(|&i| (s.sent[i].space, s.sent[i].pn));
         if !idx.is_empty() {
             let became_established = before.state == "handshake" && after.state != "handshake" && pafter.error.is_none();
-            let mut seq: Vec<(usize, &InjFrame, &String)> = Vec::new();
+            let all_legal = idx.iter().all(|&i| s.sent[i].legal);
+            let mut seq: Vec<(usize, &InjFrame, Option<&String>)> = Vec::new();
             for &i in &idx {
                 for (k, f) in s.sent[i].frames.iter().enumerate() {
-                    seq.push((s.sent[i].space, f, &fl[i][k]));
+                    seq.push((s.sent[i].space, f, fl.get(i).and_then(|v| v.get(k))));
                 }
-            }
-            let mut toks = Vec::new();
-            let mut nexact = 0;
-            for (j, (sp, f, facts)) in seq.iter().enumerate() {
-                let tainted = became_established || seq[..j].iter().any(|(psp, pf, _)| taints(pf, f, *psp, *sp));
-                let e = if f.garbled { "g" } else if tainted { "0" } else { "1" };
-                nexact += (e == "1") as u64;
-                toks.push(format!("{e}/{facts}/{}", hex(&f.bytes)));
             }
             let new_error = match (&pbefore.error, &pafter.error) {
                 (None, Some(("transport", code, _))) => Some(code_class(*code)),
                 _ => None,
             };
             let observed = new_error.map_or("ok".to_string(), |c| format!("error {c}"));
-            let side = if pbefore.side_is_server { "s" } else { "c" };
-            let line = format!("frules {side} {} {}", observed.replace(' ', ":"), toks.join(" "));
-            let nframes = seq.len() as u64;
-            let model_line_tail: Vec<String> = seq.iter().map(|x| if x.1.toks.is_empty() { format!("raw:{}", hex(&x.1.bytes)) } else { x.1.toks.join(" ") }).take(12).collect();
-            let labels: Vec<&'static str> = seq.iter().map(|x| x.1.label).collect();
-            drop(seq);
-            // the Lean front end `frules` (Part B) does not exist yet: the request lines are recorded only on demand
-            if emit_frules && sim.model_ops.len() < 400_000 {
-                sim.model_ops.push(line);
-                sim.model_impl.push(observed);
+            let mut nexact = 0;
+            if emit_frules {
+                let mut toks = Vec::new();
+                for (j, (sp, f, facts)) in seq.iter().enumerate() {
+                    let tainted = became_established || seq[..j].iter().any(|(psp, pf, _)| taints(pf, f, *psp, *sp));
+                    let e = if f.garbled { "g" } else if tainted { "0" } else { "1" };
+                    nexact += (e == "1") as u64;
+                    toks.push(format!("{e}/{}/{}", facts.map_or("", |x| x.as_str()), hex(&f.bytes)));
+                }
+                let side = if pbefore.side_is_server { "s" } else { "c" };
+                let line = format!("frules {side} {} {}", observed.replace(' ', ":"), toks.join(" "));
+                if sim.model_ops.len() < 400_000 {
+                    sim.model_ops.push(line);
+                    sim.model_impl.push(observed.clone());
+                }
             }
+            let nframes = seq.len() as u64;
+            let labels: Vec<&'static str> = seq.iter().map(|x| x.1.label).collect();
+            let model_line_tail: Vec<String> = seq.iter().map(|x| if x.1.toks.is_empty() { format!("raw:{}", hex(&x.1.bytes)) } else { x.1.toks.join(" ").chars().take(100).collect() }).take(12).collect();
+            drop(seq);
             s.evaluated += 1;
             s.frames_evaluated += nframes;
+            if all_legal {
+                s.evaluated_legal += 1;
+                s.frames_evaluated_legal += nframes;
+            }
             s.exact_frames += nexact;
             for l in labels {
                 *s.labels.entry(l).or_default() += 1;
@@ -716,9 +1039,16 @@ pub fn frames(seed: u64, out: &mut Outcome) {
                 let m = s.max_seen.entry(name).or_default();
                 *m = (*m).max(v);
                 if v > bound {
-                    sim.fail("hostile-peer-unbounded-state", format!("victim node {node}: {name} = {v} > bound {bound} after an injected datagram of {len} bytes ({nframes} injected frames)"));
+                    sim.fail("hostile-peer-unbounded-state", format!("victim node {node}: {name} = {v} > bound {bound} after an injected datagram of {len} bytes ({nframes} injected frames: {model_line_tail:?})"));
                 }
             }
+        }
+        if let Some((code, ft)) = s.killed_legal.take() {
+            // C03: input that is legal for the victim's state must be processed or ignored, never end the connection
+            let fr: Vec<String> = idx.iter().flat_map(|&i| s.sent[i].frames.iter()).map(|f| if f.toks.is_empty() { format!("raw:{}", hex(&f.bytes)) } else { f.toks.join(" ").chars().take(90).collect() }).collect();
+            let st = &after.streams;
+            sim.fail("hostile-peer-legal-frames-killed-connection", format!("victim node {node} closed with transport error {code:#x} (frame type {ft:?}) although every injected datagram so far consisted of frames that are legal in its state; datagram of {len} bytes; victim before: data_recvd {} local_max_data {} recv_state {:?}; injected frames processed in this datagram ({}): {:?}", before.streams.data_recvd, before.streams.local_max_data, before.streams.recv_state, fr.len(), fr.iter().rev().take(60).rev().collect::<Vec<_>>()));
+            let _ = st;
         }
         // forget what can no longer arrive
         let dn = [after.spaces[0].dedup_next, after.spaces[1].dedup_next, after.spaces[2].dedup_next];
@@ -727,11 +1057,15 @@ pub fn frames(seed: u64, out: &mut Outcome) {
 
     let mut ex = Exec::new();
     let mut injected = 0u64;
+    let mut injected_legal = 0u64;
     let mut frames_injected = 0u64;
     let mut ach: Option<usize> = None;
     let mut a_established = false;
     let mut quiet = 0u64;
     let mut spaces_hit = [0u64; 3];
+    let mut attack_streams: Vec<AttackStream> = Vec::new();
+    // [ACK_FREQUENCY sequence counter, CRYPTO gap fragments injected so far]
+    let mut af_seq = [0u64; 2];
     let end = sim.run_until(600_000_000_000, 60_000 + 3000 * n_attack, |sim| {
         if wb.ch[SERVER].is_none() {
             if let Some(&ch) = sim.nodes[SERVER].accepted.first() {
@@ -761,26 +1095,75 @@ pub fn frames(seed: u64, out: &mut Outcome) {
                 let vsnap = sim.snap(vn, vc);
                 let hsnap = sim.snap(hn, hc);
                 let open = |x: &Snapshot| x.state == "handshake" || x.state == "established";
+                if s.dropped > 0 {
+                    // an injection was not sent: the per-stream bookkeeping no longer matches the victim; stop using these streams
+                    for a in attack_streams.iter_mut() {
+                        a.dead = true;
+                    }
+                }
+                // attack streams: really opened by the hostile application, leaving at least one stream of credit to its workload
+                if mode != 0 && hsnap.state == "established" && attack_streams.len() < 4 {
+                    for (d, dir) in [(0usize, quinn_proto::Dir::Bi), (1, quinn_proto::Dir::Uni)] {
+                        let have = attack_streams.iter().filter(|a| a.uni == (d == 1)).count();
+                        let hs = sim.snap(hn, hc).streams;
+                        if have < 2 && hs.max[d] >= hs.next[d] + 2 {
+                            if let Some(id) = sim.conn(hn, hc).streams().open(dir) {
+                                attack_streams.push(AttackStream { id: crate::workload::sid(id), uni: d == 1, end: 0, fin: None, dead: false });
+                            }
+                        }
+                    }
+                }
                 if injected < n_attack && sim.steps % every == 0 && open(&vsnap) && open(&hsnap) {
                     let avail: Vec<usize> = (0..3).filter(|&i| hsnap.spaces[i].has_keys).collect();
-                    if !avail.is_empty() {
-                        // early spaces are short-lived: prefer them while they exist
-                        let space = if avail.len() > 1 && sim.rng.chance(2, 3) { avail[0] } else { *sim.rng.pick(&avail) };
-                        let probe = sim.nodes[vn].conns[&vc].conn.verif_frame_probe();
-                        let srw = sim.nodes[vn].conns[&vc].conn.verif_stream_probe(0).stream_receive_window;
-                        let ctx = GenCtx { victim_is_server: victim == SERVER, space, snap: vsnap, probe, srw };
+                    // early spaces are short-lived: prefer them while they exist
+                    let space = if avail.is_empty() { 0 } else if avail.len() > 1 && sim.rng.chance(2, 3) { avail[0] } else { *sim.rng.pick(&avail) };
+                    // never more than one packet's worth pending per space
+                    let free = !avail.is_empty() && sim.nodes[hn].conns[&hc].conn.verif_injection_pending()[space] == 0 && s.pending[space].is_empty();
+                    if free {
+                        let saved = (attack_streams.clone(), af_seq);
+                        let legal = mode != 0 && injected != kill_at;
+                        let vconn = &sim.nodes[vn].conns[&vc].conn;
+                        let probe = vconn.verif_frame_probe();
+                        let srw = vconn.verif_stream_probe(0).stream_receive_window;
                         let mut r2 = Rng::new(sim.rng.next());
-                        let fr = gen_injection(&mut r2, &mut ex, &ctx);
+                        let (fr, new_bytes) = if legal {
+                            let hprobe = sim.nodes[hn].conns[&hc].conn.verif_frame_probe();
+                            let unconfirmed: u64 = s.sent.iter().map(|i| i.new_bytes).sum::<u64>() + s.pending_new.iter().sum::<u64>();
+                            let st = &vsnap.streams;
+                            let big = st.receive_window >= 1 << 40;
+                            let ctx = LegalCtx {
+                                victim_is_server: victim == SERVER,
+                                space,
+                                vsnap: &vsnap,
+                                vprobe: &probe,
+                                hsnap: &hsnap,
+                                hprobe: &hprobe,
+                                vconn,
+                                new_bytes_ok: big || !hostile_sends_streams,
+                                conn_room: st.local_max_data.saturating_sub(st.data_recvd).saturating_sub(unconfirmed),
+                            };
+                            let r = gen_legal(&mut r2, &mut ex, &ctx, &mut attack_streams, &mut af_seq);
+                            if std::env::var("VERIF_FRAMES_DBG").is_ok() { eprintln!("DBG gen t={} space {space} new_ok {} room {} unconfirmed {unconfirmed} data_recvd {} lmd {} -> new_bytes {} streams {:?}", sim.now, ctx.new_bytes_ok, ctx.conn_room, st.data_recvd, st.local_max_data, r.1, attack_streams); }
+                            r
+                        } else {
+                            let ctx = GenCtx { victim_is_server: victim == SERVER, space, snap: vsnap.clone(), probe, srw };
+                            (gen_injection(&mut r2, &mut ex, &ctx), 0)
+                        };
                         if !fr.is_empty() {
                             let bytes: Vec<u8> = fr.iter().flat_map(|f| f.bytes.iter().copied()).collect();
-                            // never more than one packet's worth pending per space
-                            let pend = sim.nodes[hn].conns[&hc].conn.verif_injection_pending()[space];
-                            if pend == 0 && sim.conn(hn, hc).verif_inject_frames(space as u8, bytes) {
+                            if sim.conn(hn, hc).verif_inject_frames(space as u8, bytes) {
                                 injected += 1;
+                                injected_legal += legal as u64;
                                 frames_injected += fr.len() as u64;
                                 spaces_hit[space] += 1;
                                 s.pending[space].extend(fr);
+                                s.pending_legal[space] = legal;
+                                s.pending_new[space] = new_bytes;
+                                s.illegal_injected |= !legal;
                                 quiet = 0;
+                            } else {
+                                // not sent: the stream bookkeeping must not count it
+                                (attack_streams, af_seq) = saved;
                             }
                         }
                     }
@@ -791,10 +1174,15 @@ pub fn frames(seed: u64, out: &mut Outcome) {
         wb.tick(sim);
         let aborted = shared.borrow().abort;
         if ach.is_some() && !aborted {
-            // the content oracles of A's own workload are meaningless under injection: only B's count
+            // A's applications run the ordinary workload: its content oracles (bytes read = canonical content at that offset, no
+            // gap / duplicate) stay on; injected stream data carries the canonical content too
             let nf = sim.fails.len();
             wa.tick(sim);
-            sim.fails.truncate(nf);
+            if shared.borrow().illegal_injected {
+                // once an unrestricted datagram (arbitrary stream payload) has been injected, what A's applications read is no
+                // longer only what the honest side sent
+                sim.fails.truncate(nf);
+            }
         }
         let a_dead = ach.is_some_and(|ch| {
             let c = &sim.nodes[CLIENT].conns[&ch];
@@ -838,19 +1226,41 @@ pub fn frames(seed: u64, out: &mut Outcome) {
     }
     out.runs += 1;
     out.evaluations += sim.steps + frames_injected;
-    if b_connected && a_established && s.evaluated >= 5 {
+    if b_connected && a_established && s.frames_evaluated >= 20 {
         out.nontrivial += 1;
     }
     out.count(&format!("end:{end:?}"), 1);
+    out.count(&format!("mode:{}", ["unrestricted", "legal-only", "legal-then-illegal"][mode]), 1);
     out.count(&format!("hostile-side:{}", if hostile == CLIENT { "client" } else { "server" }), 1);
     out.count("injected-datagrams", injected);
+    out.count("injected-datagrams-legal", injected_legal);
+    out.count("injected-datagrams-unrestricted", injected - injected_legal);
     out.count("injected-frames", frames_injected);
     out.count("datagrams-evaluated", s.evaluated);
+    out.count("datagrams-evaluated-legal", s.evaluated_legal);
     out.count("frames-evaluated", s.frames_evaluated);
+    out.count("frames-evaluated-legal", s.frames_evaluated_legal);
     out.count("frames-evaluated-exact", s.exact_frames);
+    let bucket = match s.frames_evaluated {
+        0 => "0",
+        1..=19 => "1-19",
+        20..=99 => "20-99",
+        100..=499 => "100-499",
+        _ => "500+",
+    };
+    out.count(&format!("victim-processed-hostile-frames:{bucket}"), 1);
+    out.count("injections-dropped-too-large", s.dropped);
+    out.count("attack-streams-opened", attack_streams.len() as u64);
+    out.count("attack-stream-bytes", attack_streams.iter().map(|a| a.end).sum());
     out.count("victim-established", a_established as u64);
     out.count("close-code-compared", close_checked as u64);
     out.count("victim-ended-with-transport-error", victim_error.is_some() as u64);
+    if let Some((k, c)) = s.hostile_end {
+        out.count(&format!("hostile-side-ended:{k}:{}", code_class(c)), 1);
+    }
+    if let Some((k, c)) = s.victim_end {
+        out.count(&format!("victim-ended:{k}:{}", code_class(c)), 1);
+    }
     for (i, n) in spaces_hit.iter().enumerate() {
         out.count(&format!("space:{i}"), *n);
     }
@@ -868,11 +1278,11 @@ pub fn frames(seed: u64, out: &mut Outcome) {
     for (l, n) in &s.max_seen {
         out.count(&format!("summax:{l}"), *n);
     }
-    if out.samples.len() < 2 {
-        out.samples.push(format!("seed {seed}: hostile side {hostile}; {injected} injected datagrams / {frames_injected} frames, {} evaluated ({} frames, {} exact); victim errors {:?}; end {end:?} at t={}ms after {} steps", s.evaluated, s.frames_evaluated, s.exact_frames, s.errors_seen, sim.now / 1_000_000, sim.steps));
+    if out.samples.len() < 3 {
+        out.samples.push(format!("seed {seed}: mode {mode} hostile side {hostile}; {injected} injected datagrams ({injected_legal} legal) / {frames_injected} frames, {} evaluated ({} frames, {} in legal datagrams); attack streams {:?}; victim end {:?} hostile end {:?}; end {end:?} at t={}ms after {} steps", s.evaluated, s.frames_evaluated, s.frames_evaluated_legal, attack_streams.iter().map(|a| (a.id, a.end, a.fin)).collect::<Vec<_>>(), s.victim_end, s.hostile_end, sim.now / 1_000_000, sim.steps));
     }
     if std::env::var("VERIF_SIM_VERBOSE").is_ok() {
-        eprintln!("--- seed {seed}: end {end:?} hostile {hostile} injected {injected} evaluated {} errors {:?} victim_error {victim_error:?}", s.evaluated, s.errors_seen);
+        eprintln!("--- seed {seed}: mode {mode} end {end:?} hostile {hostile} injected {injected} evaluated {} errors {:?} victim_end {:?} hostile_end {:?}", s.evaluated, s.errors_seen, s.victim_end, s.hostile_end);
         for node in 0..2 {
             for (ch, nc) in &sim.nodes[node].conns {
                 eprintln!("node {node} conn {ch}: lost {:?}", nc.obs.lost);
